@@ -141,6 +141,18 @@ struct SAlloc
 
 // ---------------------------------------------------------------------------------------------------------------
 // Tr: non-trivial value type with a self pointer (detects bitwise relocation / clobbering) and lifetime ledger calls.
+// TR_THROWS: the copy constructor of Tr may throw (fault schedule for operations that copy stored objects): the k-th copy after
+// g_tr_copy_countdown was set to k throws TrThrow before the new object exists
+#if defined(TR_THROWS) && defined(__cpp_exceptions)
+struct TrThrow
+{
+};
+inline int g_tr_copy_countdown = 0;
+#define TR_COPY_NOEXCEPT noexcept(false)
+#else
+#define TR_COPY_NOEXCEPT noexcept
+#endif
+
 struct Tr
 {
     u32 v;
@@ -156,8 +168,14 @@ struct Tr
         self = this;
         verif_obj(this, OBJ_END_WRITE, nullptr, 0);
     }
-    Tr(const Tr& o) noexcept
+    Tr(const Tr& o) TR_COPY_NOEXCEPT
     {
+#if defined(TR_THROWS) && defined(__cpp_exceptions)
+        if (g_tr_copy_countdown > 0 && --g_tr_copy_countdown == 0)
+        {
+            throw TrThrow{};
+        }
+#endif
         verif_assert(o.self == &o, 9001);
         verif_obj(this, OBJ_COPY, &o, sizeof(Tr));
         verif_obj(this, OBJ_BEGIN_WRITE, nullptr, 0);
